@@ -16,7 +16,7 @@ import (
 func init() {
 	register(Property{
 		ID:          "C10",
-		Explanation: "Decided statically on the kind-directed value printer (anchor: the switch over reflect.Type.Kind() in (*Dumper).ValueLit): R1 every kind of the stated domain (bool, all int/uint sizes, float32/64, string, pointer, slice, array, map, struct) has a dedicated arm and the default arm panics; R2 table agreement between the pointer arm and the scalar arms - the set of element kinds for which the pointer arm emits the address-of form `&(lit)` is disjoint from the kinds whose own arm renders a non-composite literal (an address of a non-composite literal does not compile); R3 every type name substituted into the pointer arm's closure form comes from the type-literal printer (named types and imports are kept), never from a reflect.Kind; R4 string data reaches the result only through strconv.Quote / QuoteRune; R5 floats are formatted with 'f', precision -1 and the bit size of their kind; R6 map entries are emitted from a key list that is sorted before use (collect-then-sort), struct fields and slice elements in index order; composite literals take their type prefix from the type-literal printer. R7 empty-result discipline: every recursive call of the value printer either tests its result against the empty string or switches the sub-value mode off (an all-zero struct renders as nothing, which would leave `&()` or `k:,`). R8 accessor/kind agreement - in every numeric arm the value is read with the reflect accessor of its own class (Int for signed, Uint for unsigned, Float for floats, also through helpers) and is not converted to a type of another class first; R9 the printers keep no mutable state on the Dumper (shared with C11.R7). R5 floats are formatted with precision -1 and the right bit size, and a float64 is written in 'f' format only below a magnitude bound (an integer literal of more than 512 bits does not compile); R10 the struct, map, slice and array arms render composite literals (`<type>{...}`), which is what the pointer arm takes the address of; R11 import names are valid identifiers (C03.R5). R12 the value snippet answers IsNil() true only for the untyped nil interface. R13 nested type arguments in the names of instantiated generic types are all rewritten (C15.R4). R14 only the printer's own renderings reach a buffer or a result (field-sensitive taint from calls on another Dumper); R15 struct literal keys are the struct's own fields (Field(i), no embedding-flattening reflect call) and the constant nil is returned only under IsNil(). NOT decided: that the rendered literal compiles and evaluates to a deeply equal value (value-level round trip); the type of a top-level named scalar. Round 8: R16 = C03.R12 (the text of every registering call ends up in the literal: the imports it registered are the ones it uses); R17 in the struct arm the conditions before a field is rendered come from a closed list - exported, and reflectx.IsEmptyValue of the field's own value is false.",
+		Explanation: "Decided statically on the kind-directed value printer (anchor: the switch over reflect.Type.Kind() in (*Dumper).ValueLit): R1 every kind of the stated domain (bool, all int/uint sizes, float32/64, string, pointer, slice, array, map, struct) has a dedicated arm and the default arm panics; R2 table agreement between the pointer arm and the scalar arms - the set of element kinds for which the pointer arm emits the address-of form `&(lit)` is disjoint from the kinds whose own arm renders a non-composite literal (an address of a non-composite literal does not compile); R3 every type name substituted into the pointer arm's closure form comes from the type-literal printer (named types and imports are kept), never from a reflect.Kind; R4 string data reaches the result only through strconv.Quote / QuoteRune; R5 floats are formatted with 'f', precision -1 and the bit size of their kind; R6 map entries are emitted from a key list that is sorted before use (collect-then-sort), struct fields and slice elements in index order; composite literals take their type prefix from the type-literal printer. R7 empty-result discipline: every recursive call of the value printer either tests its result against the empty string or switches the sub-value mode off (an all-zero struct renders as nothing, which would leave `&()` or `k:,`). R8 accessor/kind agreement - in every numeric arm the value is read with the reflect accessor of its own class (Int for signed, Uint for unsigned, Float for floats, also through helpers) and is not converted to a type of another class first; R9 the printers keep no mutable state on the Dumper (shared with C11.R7). R5 floats are formatted with precision -1 and the right bit size, and a float64 is written in 'f' format only below a magnitude bound (an integer literal of more than 512 bits does not compile); R10 the struct, map, slice and array arms render composite literals (`<type>{...}`), which is what the pointer arm takes the address of; R11 import names are valid identifiers (C03.R5). R12 the value snippet answers IsNil() true only for the untyped nil interface. R13 nested type arguments in the names of instantiated generic types are all rewritten (C15.R4). R14 only the printer's own renderings reach a buffer or a result (field-sensitive taint from calls on another Dumper); R15 struct literal keys are the struct's own fields (Field(i), no embedding-flattening reflect call) and the constant nil is returned only under IsNil(). NOT decided: that the rendered literal compiles and evaluates to a deeply equal value (value-level round trip); the type of a top-level named scalar. Round 8: R16 = C03.R12 (the text of every registering call ends up in the literal: the imports it registered are the ones it uses); R17 in the struct arm the conditions before a field is rendered come from a closed list - exported, and reflectx.IsEmptyValue of the field's own value is false. Round 9: R18 = C03.R2 (the import block declares the name a literal was rendered with), R19 = C11.R1.",
 		Assumptions: commonAssumptions,
 		Run:         runC10,
 	})
